@@ -93,12 +93,98 @@ def run(ctx):
             if 'internal' not in f.linkage or n in fall:
                 a2(rep, u, f, fall, allfns)
     a4_dtors(rep, units, allfns)
+    a5_pool_resize(rep, units)
     rep.note('allocation sites found: %d; fallible functions: %s' % (nsites, sorted(fall)))
     rep.floor('A1', 10)
     rep.floor('A2', 20)
     rep.floor('A3', 20)
     rep.floor('A4', 12)
+    rep.floor('A5', 1)
     fixtures(ctx)
+
+
+def a5_pool_resize(rep, units):
+    """A5: a_que_setz resizes the pooled nodes one by one and commits the element size behind the loop.  A failure in the middle is
+    tolerable only because the nodes it has already resized are LARGER than the size the queue still reports (known finding "store
+    into container state before failing a_alloc"): every reallocation of a pooled node must sit behind the test that the new size
+    exceeds the recorded one, on its true edge."""
+    for u in units:
+        f = u.fns.get('a_que_setz')
+        if f is None:
+            continue
+        import dwarf
+        try:
+            st = dwarf.MD(u.m).structs().get('a_que')
+            sizi = [i for i, mem in enumerate(st['members']) if mem['name'] == 'siz_'][0]
+            ptri = [i for i, mem in enumerate(st['members']) if mem['name'] == 'ptr_'][0]
+        except Exception:
+            rep.unk('A5', 'a_que_setz', 'layout of a_que not readable')
+            return
+        ctxn = f.params[0][1]
+        sites = []
+        for i in f.instrs():
+            if i.op != 'call' or not any(getattr(s_, 'ins', None) is i or getattr(s_, 'call', None) is i for s_ in u.sites.get(f.name, [])):
+                continue
+            old = i.ops[0] if i.ops else None
+            if old is None or old.k != 'reg':
+                continue
+            d = f.defs.get(path.strip_casts(f, old).v) if path.strip_casts(f, old).k == 'reg' else None
+            # the block reallocated is one loaded from the pool array (*ptr with ptr derived from ctx->ptr_)
+            if d is not None and d.op == 'load' and d.ops[0].k == 'reg' and pool_cursor(f, d.ops[0], ctxn, ptri):
+                sites.append(i)
+        if not sites:
+            rep.unk('A5', 'a_que_setz', 'no reallocation of a pooled node found')
+            return
+        idom = f.idom()
+        for i in sites:
+            ok = False
+            b = i.block
+            seen = 0
+            while b is not None and seen < 64:
+                seen += 1
+                dmb = idom.get(b)
+                if dmb is None or dmb is b:
+                    break
+                t = dmb.term
+                if t.op == 'br' and t.ops and len(t.x['labels']) == 2 and t.ops[0].k == 'reg':
+                    c = f.defs.get(t.ops[0].v)
+                    if c is not None and c.op == 'icmp':
+                        tb, fb = [f.bmap[l] for l in t.x['labels']]
+                        a_, b_ = c.ops
+                        pr = c.x['pred']
+                        new_old = field_load(f, b_, ctxn, sizi) and not field_load(f, a_, ctxn, sizi)      # (new ? old)
+                        old_new = field_load(f, a_, ctxn, sizi) and not field_load(f, b_, ctxn, sizi)      # (old ? new)
+                        grows_true = (pr == 'ugt' and new_old) or (pr == 'ult' and old_new)
+                        grows_false = (pr == 'ule' and new_old) or (pr == 'uge' and old_new)
+                        via_t = (tb is i.block or f.dominates(tb, i.block)) and not (fb is i.block or f.reachable(fb, i.block, avoid=(dmb,)))
+                        via_f = (fb is i.block or f.dominates(fb, i.block)) and not (tb is i.block or f.reachable(tb, i.block, avoid=(dmb,)))
+                        if (grows_true and via_t) or (grows_false and via_f):
+                            ok = True
+                            break
+                b = dmb
+            if ok:
+                rep.ok('A5', 'a_que_setz@%s' % f.line(i), 'the pooled node is reallocated only behind new size > ctx->siz_: a failure in the middle leaves only nodes that are larger than the size still reported', loc=f.loc(i))
+            else:
+                rep.bad('A5', 'a_que_setz@%s' % f.line(i), 'a pooled node is reallocated without the test that the new element size exceeds the recorded one: when a later reallocation '
+                        'fails, siz_ keeps the old (larger) value while nodes already resized are smaller - the next push hands out a node that is too small', loc=f.loc(i),
+                        key='a_que_setz: pooled nodes resized below the recorded element size')
+        return
+
+
+def pool_cursor(f, v, ctxn, ptri, depth=0):
+    """is v a pointer into the pool array: ctx->ptr_, or a cursor (phi / gep) derived from it"""
+    if v.k != 'reg' or depth > 8:
+        return False
+    if field_load(f, v, ctxn, ptri):
+        return True
+    d = f.defs.get(v.v)
+    if d is None:
+        return False
+    if d.op in ('gep', 'bitcast'):
+        return pool_cursor(f, d.ops[0], ctxn, ptri, depth + 1)
+    if d.op == 'phi':
+        return any(pool_cursor(f, o, ctxn, ptri, depth + 1) for o in d.ops if not (o.k == 'reg' and o.v == d.res))
+    return False
 
 
 # ---------------------------------------------------------------- fallible summary
